@@ -134,6 +134,11 @@ bool splinetable<Alloc>::read_fits_mem(void* buffer, size_t buffer_size){
 	fitsfile* fits;
 	int error = 0;
 	
+	//FITS files consist of whole 2880 byte blocks, and cfitsio's memory driver
+	//always transfers whole blocks, whether or not the buffer contains them
+	if(!buffer || buffer_size==0 || buffer_size%2880!=0)
+		throw std::runtime_error("Memory 'file' is not a whole number of FITS blocks");
+	
 	fits_open_memfile(&fits, "", READONLY, &buffer, &buffer_size, 0, NULL, &error);
 	if (error != 0){
 		fits_report_error(stderr, error);
@@ -150,6 +155,22 @@ bool splinetable<Alloc>::read_fits_mem(void* buffer, size_t buffer_size){
 		}
 	} cleanup(fits);
 	
+	//The memory driver also believes the headers rather than the size of the
+	//buffer, so make sure that every HDU lies inside the buffer before any
+	//of its data are touched.
+	{
+		int nhdus=0, type=0;
+		fits_get_num_hdus(fits, &nhdus, &error);
+		for(int i=1; i<=nhdus && error==0; i++){
+			LONGLONG headstart=0, datastart=0, dataend=0;
+			fits_movabs_hdu(fits, i, &type, &error);
+			fits_get_hduaddrll(fits, &headstart, &datastart, &dataend, &error);
+			if(error==0 && (dataend<0 || (unsigned long long)dataend>buffer_size))
+				throw std::runtime_error("Memory 'file' is truncated: HDU "+std::to_string(i)+" extends beyond the end of the buffer");
+		}
+		if(error!=0)
+			throw std::runtime_error("Unable to examine the HDUs of memory 'file': Error "+std::to_string(error));
+	}
 	return(read_fits_core(fits, "memory 'file'"));
 }
 	
